@@ -634,10 +634,8 @@ class CircuitTemplate(AbstractBaseTemplate):
                                                                         **kwargs)
         net._state_var_indices = state_var_indices
 
-        # set current network state if it was empty before
-        if not net.state:
-            for key in net.compute_graph.state_vars:
-                net._state_var_values[key] = net.compute_graph.get_var(key).value
+        # (the state of the template is only recorded by `run`, which leaves the state that a simulation ended in. Recording
+        # the declared initial values here as well would make later `update_var` calls on initial values ineffective.)
 
         # map the backend variable names to the frontend variable names (must happen before clear)
         state_var_map = {}
@@ -727,10 +725,8 @@ class CircuitTemplate(AbstractBaseTemplate):
                                                                                sparse=sparse, **kwargs)
         net._state_var_indices = state_var_indices
 
-        # set current network state if it was empty before
-        if not net.state:
-            for key in net.compute_graph.state_vars:
-                net._state_var_values[key] = net.compute_graph.get_var(key).value
+        # (the state of the template is only recorded by `run`, which leaves the state that a simulation ended in. Recording
+        # the declared initial values here as well would make later `update_var` calls on initial values ineffective.)
 
         # map the backend variable names to the frontend variable names (must happen before clear)
         state_var_map = {}
